@@ -107,6 +107,7 @@ BASES = [
     cont([P, 0xE1, 0x00, 0x01, P, 0x5B, 0x00]),                  # heights [0,1] at the NOP and the STOP
     cont([P, 0xE2, 0x00, 0x00, 0x01, P, 0x5B, 0x00]),            # the same through an RJUMPV
     cont([P, P, 0xE1, 0x00, 0x00, 0x50, 0x00]),                  # RJUMPI +0, then POP needs the item
+    cont([P, P, 0xE1, 0x00, 0x05, 0x50, P, 0xE1, 0x00, 0x00, P, P, 0x00]),   # two forward jumps to one target, the HIGHER first; the maximum (3) is reached behind it
     cont([0xE3, 0x00, 0x01, 0x00], types=[T(0, 0, 0)], more_codes=[[0xE4]]),              # CALLF 1
     cont([P, 0xE1, 0x00, 0x03, 0xE5, 0x00, 0x01, 0x00], types=[T(0, NR, 0)], more_codes=[[0x00]]),   # JUMPF 1
 ]
@@ -119,7 +120,7 @@ def flow_consts(quick, deep=False):
     (thorough: a 13-letter alphabet, and every structurally valid string of <= 4 bytes as a further probe base);
     deep (thorough only): strings up to 6 bytes over the 9-letter alphabet, nothing else."""
     given = ["OpcodeCases",
-             "ImmCases({0, 1, 2, 16, 17, 18, 32, 33, 255}, 0..5)",
+             "ImmCases({0, 1, 2, 8, 16, 17, 18, 32, 33, 128, 255}, (0..5) \\cup {10, 11, 12})",
              "DataCases({0, 1, 2, 31, 32, 33, 255, 256, 65535}, {0, 1, 31, 32, 33, 34, 64})"]
     bases = tset(BASES)
     if not quick:
